@@ -22,10 +22,6 @@ CONSTANTS Depth,        \* maximal number of accepted layers
 VARIABLES net, hist, phase, rejected
 vars == <<net, hist, phase, rejected>>
 
-Val(seed, i) == ((seed * 7919 + i * 104729 + i * i * 31) % 7) - 3
-
-HP(f, kh, kw, sh, sw, ph, pw, dh, dw, act, bias) ==
-  [f |-> f, kh |-> kh, kw |-> kw, sh |-> sh, sw |-> sw, ph |-> ph, pw |-> pw, dh |-> dh, dw |-> dw, act |-> act, bias |-> bias]
 
 BaseMenu == <<
   [kind |-> "dense",  hp |-> HP(4, 1, 1, 1, 1, 0, 0, 1, 1, "relu", TRUE)],
@@ -54,14 +50,6 @@ Inputs == {InputMenu[i] : i \in InputSel}
 
 PrevOut == IF net.layers = <<>> THEN net.input ELSE
            LET L == net.layers[Len(net.layers)] IN L.out
-
-LayerParams(L, seed) ==
-  CASE L.kind \in {"conv", "deconv"} ->
-         [K |-> [f \in 1..L.cfg.f |-> [ch \in 1..L.cfg.c |-> [a \in 1..L.cfg.kh |-> [b \in 1..L.cfg.kw |->
-                   Val(seed, ((f*3 + ch)*5 + a)*7 + b)]]]]]
-    [] L.kind = "pool"  -> [K |-> <<>>]
-    [] L.kind = "dense" -> [W |-> [i \in 1..L.cfg.f |-> [j \in 1..L.cfg.c |-> Val(seed, i*11 + j)]],
-                            b |-> [i \in 1..L.cfg.f |-> IF L.cfg.bias THEN Val(seed + 5, i) ELSE 0]]
 
 Init ==
   /\ \E s \in Inputs : net = [input |-> s, layers |-> <<>>, connect |-> {}, skipacc |-> "add", loops |-> {}, loopacc |-> "mean"]
@@ -112,18 +100,6 @@ UpstreamOf(n, seed) ==
       v == [k \in 1..c |-> Val(seed + 2, k) + (IF Val(seed + 2, k) = 0 THEN 1 ELSE 0)]
   IN FromFlat(v, s, 1)
 
-\* No ReLU pre-activation is exactly 0 and no pool window has two equal maxima (C01/C02 quantify away from these).
-KinkFree(n, X) ==
-  LET st == Forward(n, X) IN
-  \A i \in 1..Len(n.layers) :
-    LET L == n.layers[i]
-        x == IF L.kind = "dense" THEN FlatT(st.ins[i])
-             ELSE IF RankT(st.ins[i]) = 1 THEN Unflat3(st.ins[i].data, L.in[1], L.in[2], L.in[3]) ELSE st.ins[i].data
-    IN CASE L.kind = "pool" -> PoolTieFree(x, L.cfg)
-         [] L.cfg.act = "relu" -> \A v \in {FlatR(RankOf(L.cfg), Pre(L.cfg, L.params, x))[k] :
-                                              k \in 1..Count(L.out)} : v # 0
-         [] OTHER -> TRUE
-
 \* ---- invariants ---------------------------------------------------------------------
 \* C08: the shape announced for every layer equals the shape the forward pass produces, consecutive layers fit,
 \* and flattening keeps the row-major sequence.
@@ -138,48 +114,10 @@ ShapesOK ==
         /\ PresFrom(net, InputOf(net, seed), 1)[i].shape = L.out
 
 \* C01 at network level: the reverse walk equals finite differences of <g, Predict> in every parameter coordinate
-\* along which the ReLU / arg-max pattern of the whole network is stable.
-Lnet(n, X, G) == LET y == Predict(n, X) IN SumF([k \in 1..Len(FlatT(y)) |-> FlatT(y)[k] * FlatT(G)[k]])
-SamePattern(n1, n2, X) ==
-  LET a == Forward(n1, X) b == Forward(n2, X) IN
-  \A i \in 1..Len(n1.layers) :
-    LET L1 == n1.layers[i] L2 == n2.layers[i]
-        x1 == IF L1.kind = "dense" THEN FlatT(a.ins[i]) ELSE IF RankT(a.ins[i]) = 1 THEN Unflat3(a.ins[i].data, L1.in[1], L1.in[2], L1.in[3]) ELSE a.ins[i].data
-        x2 == IF L2.kind = "dense" THEN FlatT(b.ins[i]) ELSE IF RankT(b.ins[i]) = 1 THEN Unflat3(b.ins[i].data, L2.in[1], L2.in[2], L2.in[3]) ELSE b.ins[i].data
-    IN CASE L1.kind = "pool" ->
-              \A ch \in 1..L1.cfg.c, oh \in 1..PoolOH(L1.cfg), ow \in 1..PoolOW(L1.cfg) :
-                 \E q \in Window(L1.cfg, oh, ow) : /\ x1[ch][q[1]][q[2]] = PoolPre(x1, L1.cfg)[ch][oh][ow]
-                                                   /\ x2[ch][q[1]][q[2]] = PoolPre(x2, L2.cfg)[ch][oh][ow]
-         [] L1.cfg.act = "relu" ->
-              LET p1 == FlatR(RankOf(L1.cfg), Pre(L1.cfg, L1.params, x1))
-                  p2 == FlatR(RankOf(L2.cfg), Pre(L2.cfg, L2.params, x2))
-              IN \A k \in 1..Len(p1) : (p1[k] > 0 /\ p2[k] >= 0) \/ (p1[k] < 0 /\ p2[k] <= 0)
-         [] OTHER -> TRUE
-
-Bump(n, i, P2) == [n EXCEPT !.layers[i].params = P2]
-CoordNet(n, X, G, i, Pp, Pm, d) ==
-  (SamePattern(n, Bump(n, i, Pp), X) /\ SamePattern(n, Bump(n, i, Pm), X)) =>
-     /\ Lnet(Bump(n, i, Pp), X, G) - Lnet(n, X, G) = d
-     /\ Lnet(n, X, G) - Lnet(Bump(n, i, Pm), X, G) = d
-
+\* along which the ReLU / arg-max pattern of the whole network is stable (operators in Network.tla).
 NetGradIsDerivative ==
   (phase = "done" /\ CheckFD) =>
-    \A seed \in DataSeeds :
-      LET X == InputOf(net, seed) G == UpstreamOf(net, seed) IN
-      KinkFree(net, X) =>
-        LET B == Backward(net, X, G) IN
-        \A i \in 1..Len(net.layers) :
-          LET L == net.layers[i] P == L.params IN
-          CASE L.kind \in {"conv", "deconv"} ->
-                 \A f \in 1..L.cfg.f, ch \in 1..L.cfg.c, a \in 1..L.cfg.kh, b \in 1..L.cfg.kw :
-                    CoordNet(net, X, G, i, [K |-> [P.K EXCEPT ![f][ch][a][b] = @ + 1]],
-                                           [K |-> [P.K EXCEPT ![f][ch][a][b] = @ - 1]], B.grads[i].dw[f][ch][a][b])
-            [] L.kind = "dense" ->
-                 /\ \A r \in 1..L.cfg.f, c \in 1..L.cfg.c :
-                      CoordNet(net, X, G, i, [P EXCEPT !.W[r][c] = @ + 1], [P EXCEPT !.W[r][c] = @ - 1], B.grads[i].dw[r][c])
-                 /\ L.cfg.bias => \A r \in 1..L.cfg.f :
-                      CoordNet(net, X, G, i, [P EXCEPT !.b[r] = @ + 1], [P EXCEPT !.b[r] = @ - 1], B.grads[i].db[r])
-            [] OTHER -> TRUE
+    \A seed \in DataSeeds : GradOK(net, InputOf(net, seed), UpstreamOf(net, seed))
 
 CaseOf(seed) ==
   LET X == InputOf(net, seed) G == UpstreamOf(net, seed)
